@@ -395,6 +395,10 @@ func (bi *binterp) expr(fr *bframe, e ast.Expr) bval {
 			}
 		case constant.Bool:
 			return bval{k: bBool, b: constant.BoolVal(tv.Value)}
+		case constant.String:
+			if constant.StringVal(tv.Value) == "" {
+				return bval{k: bStr, par: -1, role: "<empty>"} // the empty string: no bytes
+			}
 		}
 	}
 	switch x := e.(type) {
@@ -621,6 +625,9 @@ func (bi *binterp) callExpr(fr *bframe, x *ast.CallExpr) bval {
 			if isStringType(tv.Type) && v.k == bStr {
 				return v
 			}
+			if isStringType(tv.Type) && v.k == bSeq {
+				return v // the text made of a byte sequence: the same bytes
+			}
 		}
 		return unknownVal("conversion " + types.ExprString(x))
 	}
@@ -698,6 +705,45 @@ func (bi *binterp) callExpr(fr *bframe, x *ast.CallExpr) bval {
 		case "bytes.Buffer.Bytes":
 			if recv.k == bSeq {
 				return recv
+			}
+		case "strings.Join":
+			// the elements in order with the separator between each two of them
+			if len(x.Args) == 2 {
+				l, sep := bi.expr(fr, x.Args[0]), bi.expr(fr, x.Args[1])
+				toSegs := func(v bval) (Shape, bool) {
+					switch v.k {
+					case bStr:
+						if v.role == "<empty>" {
+							return Shape{}, true
+						}
+						kind := "Str"
+						if v.bech32 {
+							kind = "Bech32"
+						}
+						return Shape{{Kind: kind, Role: v.role, Par: v.par}}, true
+					case bSeq:
+						return v.seq, true
+					}
+					return nil, false
+				}
+				if ss, ok := toSegs(sep); ok && l.k == bList {
+					out := Shape{}
+					good := true
+					for i, el := range l.list {
+						es, ok := toSegs(el)
+						if !ok {
+							good = false
+							break
+						}
+						if i > 0 {
+							out = append(out, ss...)
+						}
+						out = append(out, es...)
+					}
+					if good {
+						return bval{k: bSeq, seq: out}
+					}
+				}
 			}
 		case "bytes.TrimSuffix":
 			// one trailing occurrence of the suffix is cut if present
